@@ -104,10 +104,12 @@ def oracle(line, meta):
             if cls in (0, 4, 5, 7, 8) and cc[1] < 10 ** 8 and c < len(wwin) and not wwin[c].startswith("S") and int(wwin[c]) < cc[1] - WIN_MARGIN:
                 return "burst: channel %d: the worst 256-sample window has its error only %.1f dB under the signal level at %s %s; bound %.1f dB" % (
                     c, int(wwin[c]) / 10.0, "nominal bitrate" if mode else "quality", q, (cc[1] - WIN_MARGIN) / 10.0)
+        # (quality-mode streams only: under rate management the last blocks of an 8-channel stream at a low nominal rate are starved by design — 1.7 dB
+        # on the unchanged tree — so the rule would alarm there)
         # the first and the last 1024 samples (left out by the figures above): where the whole signal is reconstructed 10 dB under its level or
         # better, the ends of a steady signal may not be worse than 3 dB — a block trimmed at the wrong end or shifted there gives about 0 dB
         ends = f.get("ends", "").split(",")
-        if cls in (0, 2, 4) and c < len(ends) and "/" in ends[c] and not snrs[c].startswith("S") and int(snrs[c]) >= 100:
+        if mode == 0 and cls in (0, 2, 4) and c < len(ends) and "/" in ends[c] and not snrs[c].startswith("S") and int(snrs[c]) >= 100:
             hd, tl = (int(x) for x in ends[c].split("/"))
             if tl < ENDS_MIN or hd < ENDS_MIN:
                 return "ends: channel %d: the first / last 1024 samples come out %.1f / %.1f dB under the signal (whole signal %.1f dB): the stream's ends are not where the input's are" % (
